@@ -355,7 +355,7 @@ fn run_case(rec: &mut Recorder, rt: &tokio::runtime::Runtime, reg: &Registry, c:
 
 fn pct(b: u8) -> Vec<u8> { format!("%{:02X}", b).into_bytes() }
 
-struct Gen { rng: Rng }
+struct Gen { rng: Rng, brackets: u64 }
 impl Gen {
     fn maybe_pct(&mut self, s: &[u8], num: u64) -> Vec<u8> {
         // percent-encode some characters of an ASCII path (a client may do that to any byte)
@@ -395,6 +395,21 @@ impl Gen {
             _ => (format!("{}.{}.0.0/16", self.rng.below(256), self.rng.below(256)), Some(200)),
         }
     }
+    /// A parameter whose *name* has one of the bracket shapes a hand-written name parser can trip over:
+    /// unclosed, empty, doubled, trailing text, percent-encoded brackets, a multi-byte character next to a
+    /// bracket. `needles` are names the addressed endpoint looks up.
+    fn bracket_param(&mut self, needles: &[&str], value: &str) -> String {
+        let n = *self.rng.pick(needles);
+        let f = *self.rng.pick(&["as_path", "peer_as", "community", "x", "", "%C3%A9", "a%E2%82%AC", "]", "["]);
+        let name = match self.rng.below(16) {
+            0 => format!("{n}["), 1 => format!("{n}[]"), 2 => format!("{n}]"), 3 => format!("{n}[{f}"), 4 => format!("{n}[{f}]x"),
+            5 => format!("{n}[{f}]b[c]"), 6 => format!("{n}[[{f}]]"), 7 => format!("[{n}]"), 8 => format!("{n}%5B{f}%5D"), 9 => format!("{n}%5B"),
+            10 => format!("{n}%5B{f}"), 11 => format!("{n}[{f}]%C3%A9"), 12 => format!("{n}][{f}"), 13 => format!("{n}[{f}]]"), 14 => format!("{n}%5D"),
+            _ => format!("{n}[{f}]"),
+        };
+        self.brackets += 1;
+        if self.rng.chance(1, 6) { name } else { format!("{name}={value}") }
+    }
     fn rib_query(&mut self) -> (Option<Vec<u8>>, bool) {
         // returns (query, all parameters certainly valid and harmless)
         if self.rng.chance(35, 100) { return (None, true); }
@@ -415,6 +430,13 @@ impl Gen {
             ]);
             good &= ok;
             parts.push(p.to_string());
+        }
+        if self.rng.chance(1, 5) {
+            let v = *self.rng.pick(&["1", "AS1", "lessSpecifics", "", "65000:1"]);
+            let p = self.bracket_param(&["select", "discard", "include", "details", "sort", "format", "filter_op"], v);
+            let at = self.rng.below(parts.len() as u64 + 1) as usize;
+            parts.insert(at, p);
+            good = false;
         }
         // duplicates of single-valued parameters are "unrecognized" (only the first is marked used)
         let names: Vec<&str> = parts.iter().map(|p| p.split(['=', '[', '%']).next().unwrap()).collect();
@@ -474,7 +496,7 @@ impl Gen {
                 kind = "mrt";
                 let (base, has_dir) = self.rng.pick(&mrts).clone();
                 let file = self.rng.pick(&["a.mrt", "sub/b.mrt", "missing.mrt", "../outside.mrt", "/etc/passwd", "", "sub/../a.mrt", "sub/../../outside.mrt", "a.mrt%00", "link-out", "sub"]).to_string();
-                let q = match self.rng.below(8) { 0 => None, 1 => Some(format!("file[x]={file}")), 2 => Some(format!("x=1&file={file}")), 3 => Some(format!("file={file}&file=a.mrt")), _ => Some(format!("file={file}")) };
+                let q = match self.rng.below(9) { 0 => None, 8 => Some(self.bracket_param(&["file"], &file)), 1 => Some(format!("file[x]={file}")), 2 => Some(format!("x=1&file={file}")), 3 => Some(format!("file={file}&file=a.mrt")), _ => Some(format!("file={file}")) };
                 query = q.map(|s| s.into_bytes());
                 let action = self.rng.pick(&["queue", "queue/", "queued", "que", "", "Queue", "queue%2F"]).to_string();
                 if !has_dir && action.starts_with("queue") { expect = Some(400); }
@@ -484,7 +506,7 @@ impl Gen {
                 kind = "router-list";
                 let sb = self.rng.pick(&["addr", "sys_name", "sys_desc", "state", "peers_up", "peers_up_eor_capable", "peers_up_dumping", "peers_up_eor_capable_pc", "peers_up_dumping_pc", "invalid_messages", "soft_parse_errors", "hard_parse_errors", "bogus", "", "Addr"]).to_string();
                 let so = self.rng.pick(&["asc", "desc", "up", ""]).to_string();
-                query = match self.rng.below(6) { 0 => None, 1 => Some(format!("sort_by={sb}")), 2 => Some(format!("sort_order={so}")), 3 => Some(format!("sort_by[x]={sb}&sort_order={so}&other=1")), _ => Some(format!("sort_by={sb}&sort_order={so}")) }.map(|s| s.into_bytes());
+                query = match self.rng.below(7) { 0 => None, 6 => Some(format!("{}&sort_order={so}", self.bracket_param(&["sort_by", "sort_order"], &sb))), 1 => Some(format!("sort_by={sb}")), 2 => Some(format!("sort_order={so}")), 3 => Some(format!("sort_by[x]={sb}&sort_order={so}&other=1")), _ => Some(format!("sort_by={sb}&sort_order={so}")) }.map(|s| s.into_bytes());
                 self.rng.pick(&["/routers/", "/routers", "/routers/1", "/Routers/", "/routers/%2F"]).as_bytes().to_vec()
             }
             84..=89 => { kind = "unknown"; let mut p = b"/".to_vec(); p.extend(self.junk_segment()); if self.rng.chance(40, 100) { p.push(b'/'); p.extend(self.junk_segment()); } p }
@@ -590,7 +612,7 @@ fn main() {
         run_case(&mut rec, &rt, &regs[0], &c, &mrt_dir);
     }
 
-    let mut g = Gen { rng: Rng::new(args.seed) };
+    let mut g = Gen { rng: Rng::new(args.seed), brackets: 0 };
     let n = if args.thorough { 600_000 } else { 30_000 };
     let budget = if args.thorough { 420.0 } else { 50.0 };
     for i in 0..n {
@@ -600,6 +622,7 @@ fn main() {
         if g.rng.chance(15, 100) { c = g.mutate(c); }
         run_case(&mut rec, &rt, reg, &c, &mrt_dir);
     }
+    rec.bump_by("gen.bracket-shaped-param-name", g.brackets);
     rec.finish(&args, t0.elapsed().as_secs_f64());
     let _ = std::fs::remove_dir_all(&root);
 }
